@@ -544,7 +544,7 @@ def clone_closed(p):
 
     got, vecs, probs, reps = _clone_call(p, bool(p.get("strategy")))
     exp = {"wiesner": 0.75, "six-state": 2.0 / 3.0, "single": 1.0, "orthogonal": 1.0, "y-basis": 1.0}[p["name"]] ** reps
-    if abs(got - exp) > TOL_SDP:
+    if abs(got - exp) > _tolr(reps):
         raise Violation("optimal_clone(%s, reps=%d, strategy=%s) = %.6f, closed form %.6f" % (p["name"], reps, bool(p.get("strategy")), got, exp))
 
 
